@@ -101,29 +101,33 @@ def lift(obj, typed=False):
     def L(x):
         return lift(x, typed)
 
+    def S(x):
+        # lark Tokens are str subclasses: normalise to plain str
+        return str(x) if isinstance(x, str) and type(x) is not str else x
+
     def T(node):
         if typed:
             return ('t', int(g(obj, 'data_type').value), node)
         return node
 
     if cn == 'HplLiteral':
-        return T(('lit', g(obj, 'token'), g(obj, 'value')))
+        return T(('lit', S(g(obj, 'token')), S(g(obj, 'value'))))
     if cn == 'HplThisMessage':
         return T(('this',))
     if cn == 'HplVarReference':
-        tok = g(obj, 'token')
+        tok = S(g(obj, 'token'))
         return T(('var', tok[1:] if tok.startswith('@') else '!' + tok))
     if cn == 'HplFieldAccess':
-        return T(('field', L(g(obj, 'message')), g(obj, 'field')))
+        return T(('field', L(g(obj, 'message')), S(g(obj, 'field'))))
     if cn == 'HplArrayAccess':
         return T(('index', L(g(obj, 'array')), L(g(obj, 'index'))))
     if cn == 'HplUnaryOperator':
-        return T(('un', g(g(obj, 'operator'), 'token'), L(g(obj, 'operand'))))
+        return T(('un', S(g(g(obj, 'operator'), 'token')), L(g(obj, 'operand'))))
     if cn == 'HplBinaryOperator':
-        return T(('bin', g(g(obj, 'operator'), 'token'), L(g(obj, 'operand1')), L(g(obj, 'operand2'))))
+        return T(('bin', S(g(g(obj, 'operator'), 'token')), L(g(obj, 'operand1')), L(g(obj, 'operand2'))))
     if cn == 'HplQuantifier':
         q = g(obj, 'quantifier')
-        return T(('quant', q._value_, g(obj, 'variable'), L(g(obj, 'domain')), L(g(obj, 'condition'))))
+        return T(('quant', S(q._value_), S(g(obj, 'variable')), L(g(obj, 'domain')), L(g(obj, 'condition'))))
     if cn == 'HplSet':
         return T(('set', tuple(L(v) for v in g(obj, 'values'))))
     if cn == 'HplRange':
@@ -131,7 +135,7 @@ def lift(obj, typed=False):
             ('range', L(g(obj, 'min_value')), L(g(obj, 'max_value')), g(obj, 'exclude_min'), g(obj, 'exclude_max'))
         )
     if cn == 'HplFunctionCall':
-        return T(('call', g(g(obj, 'function'), 'name'), tuple(L(a) for a in g(obj, 'arguments'))))
+        return T(('call', S(g(g(obj, 'function'), 'name')), tuple(L(a) for a in g(obj, 'arguments'))))
     if cn == 'HplPredicateExpression':
         return ('pred', L(g(obj, 'expression')))
     if cn == 'HplVacuousTruth':
@@ -139,7 +143,7 @@ def lift(obj, typed=False):
     if cn == 'HplContradiction':
         return ('pfalse',)
     if cn == 'HplSimpleEvent':
-        return ('event', g(obj, 'name'), g(obj, 'alias'), L(g(obj, 'predicate')))
+        return ('event', S(g(obj, 'name')), S(g(obj, 'alias')), L(g(obj, 'predicate')))
     if cn == 'HplEventDisjunction':
         return ('evor', L(g(obj, 'event1')), L(g(obj, 'event2')))
     if cn == 'HplScope':
